@@ -93,7 +93,7 @@ fn main() {
     let ctx = Ctx::from_args("C07");
     ctx.level("model_checking");
     ctx.rule("E1: every sparsity pattern for all shapes with r*c <= 12 (quick) / r*c <= 20 (thorough), two triplet orders, against the dense products over exact rationals with EVERY unit vector plus all-ones, alternating, powers of two and fractional vectors: multiply, transpose_multiply, transpose().multiply, <y,Ax>=<A^T y,x>, scale; shapes up to 10x10 through 11 pattern families. E2: the same oracles on every state of the BFS over insert/overwrite/scale/transpose histories (storage orders that from_triplets alone does not produce). Non-trivial: empty rows/columns, empty matrix, rectangular shapes, unsorted storage.");
-    ctx.require(&["pattern with an empty column", "pattern with an empty row", "empty matrix", "rectangular", "state with unsorted rows inside a column", "large shape"]);
+    ctx.require(&["pattern with an empty column", "pattern with an empty row", "empty matrix", "rectangular", "state with unsorted rows inside a column", "large shape", "typed sparse case (f64, Complex<f64>)"]);
     let lim = ctx.pick(12, 20);
     for r in 0..=5usize {
         for c in 0..=5usize {
@@ -130,5 +130,6 @@ fn main() {
     );
     let depth = ctx.pick(5, 6);
     run_bfs(&ctx, "products on insert/scale/transpose histories", &[(2, 3), (3, 3), (1, 4)], Mode::Products, depth, ctx.pick(1_500_000, 30_000_000), false);
+    typed_spaces(&ctx, &[(2, 2), (2, 3), (3, 2), (1, 4), (3, 3)], true);
     std::process::exit(ctx.finish());
 }
